@@ -1319,7 +1319,10 @@ insert_list:
         rq.current->error_number = 0;
         auto sw = AtomicRunQ(rq).goto_next();
         switch_context(sw.from, sw.to);
-        return rq.current->error_number;
+        // consume the reason: it must not be reported again by a later sleep
+        auto err = rq.current->error_number;
+        rq.current->error_number = 0;
+        return err;
     }
 
     __attribute__((noinline))
@@ -1352,7 +1355,9 @@ insert_list:
         if_update_now();
         rq.current->error_number = 0;
         switch_context(sw.from, sw.to);
-        return rq.current->error_number;
+        auto err = rq.current->error_number;
+        rq.current->error_number = 0;
+        return err;
     }
 
     __attribute__((always_inline)) inline
